@@ -108,5 +108,47 @@ pub fn print_impls(w: &mut impl Write) {
     per_backend!(w, "pwWrappedDisplay", |V| probe!(PasswordWrappedKey<V, Secret>: Display));
     per_backend!(w, "sealedKeyDisplay", |V| probe!(SealedKey<V>: Display));
     per_backend!(w, "pieWrappedDebug", |V| probe!(PieWrappedKey<V, Local>: Debug));
+    // trait impls that must NOT exist: ways to get at secret key material or at an unsealed / unverified value without the
+    // explicit calls (`expose_key`, `unverified_footer`).  One row per (type, bound); the Lean side demands `false` everywhere.
+    writeln!(w, "def forbiddenImpls : List (String × Bool) := [").unwrap();
+    let mut rows: Vec<(String, bool)> = vec![];
+    macro_rules! forb {
+        ($bn:literal, $VT:ty) => {{
+            type V = $VT;
+            macro_rules! key_rows { ($kn:literal, $K:ty) => {{
+                rows.push((format!("Key<{},{}>: Into<[u8;32]>", $bn, $kn), probe!(Key<V, $K>: Into<[u8; 32]>)));
+                rows.push((format!("Key<{},{}>: Into<[u8;48]>", $bn, $kn), probe!(Key<V, $K>: Into<[u8; 48]>)));
+                rows.push((format!("Key<{},{}>: Into<[u8;64]>", $bn, $kn), probe!(Key<V, $K>: Into<[u8; 64]>)));
+                rows.push((format!("Key<{},{}>: Into<Vec<u8>>", $bn, $kn), probe!(Key<V, $K>: Into<Vec<u8>>)));
+                rows.push((format!("Key<{},{}>: Into<Box<[u8]>>", $bn, $kn), probe!(Key<V, $K>: Into<Box<[u8]>>)));
+                rows.push((format!("Key<{},{}>: Into<String>", $bn, $kn), probe!(Key<V, $K>: Into<String>)));
+                rows.push((format!("Key<{},{}>: AsRef<[u8]>", $bn, $kn), probe!(Key<V, $K>: AsRef<[u8]>)));
+                rows.push((format!("Key<{},{}>: Borrow<[u8]>", $bn, $kn), probe!(Key<V, $K>: std::borrow::Borrow<[u8]>)));
+                rows.push((format!("Key<{},{}>: Deref", $bn, $kn), probe!(Key<V, $K>: std::ops::Deref)));
+                rows.push((format!("Key<{},{}>: ToString", $bn, $kn), probe!(Key<V, $K>: ToString)));
+                rows.push((format!("Key<{},{}>: Hash", $bn, $kn), probe!(Key<V, $K>: std::hash::Hash)));
+                rows.push((format!("Key<{},{}>: LowerHex", $bn, $kn), probe!(Key<V, $K>: std::fmt::LowerHex)));
+                rows.push((format!("&Key<{},{}>: Into<Vec<u8>>", $bn, $kn), probe!(&'static Key<V, $K>: Into<Vec<u8>>)));
+                rows.push((format!("&Key<{},{}>: IntoIterator", $bn, $kn), probe!(&'static Key<V, $K>: IntoIterator)));
+            }}; }
+            key_rows!("Local", Local);
+            key_rows!("Secret", Secret);
+            key_rows!("PkeSecret", PkeSecret);
+            rows.push((format!("SealedToken<{},Local>: Deref", $bn), probe!(SealedToken<V, Local, Rich, Rich>: std::ops::Deref)));
+            rows.push((format!("SealedToken<{},Public>: Deref", $bn), probe!(SealedToken<V, Public, Rich, Rich>: std::ops::Deref)));
+            rows.push((format!("SealedToken<{},Local>: AsRef<Rich>", $bn), probe!(SealedToken<V, Local, Rich, Rich>: AsRef<Rich>)));
+            rows.push((format!("SealedToken<{},Public>: AsRef<Rich>", $bn), probe!(SealedToken<V, Public, Rich, Rich>: AsRef<Rich>)));
+            rows.push((format!("SealedToken<{},Public>: Borrow<Rich>", $bn), probe!(SealedToken<V, Public, Rich, Rich>: std::borrow::Borrow<Rich>)));
+            rows.push((format!("SealedToken<{},Public>: Into<Rich>", $bn), probe!(SealedToken<V, Public, Rich, Rich>: Into<Rich>)));
+            rows.push((format!("UnsealedToken<{},Local>: ToString", $bn), probe!(UnsealedToken<V, Local, Rich, Rich>: ToString)));
+            rows.push((format!("UnsealedToken<{},Public>: Into<String>", $bn), probe!(UnsealedToken<V, Public, Rich, Rich>: Into<String>)));
+            rows.push((format!("UnsealedToken<{},Local>: Into<Vec<u8>>", $bn), probe!(UnsealedToken<V, Local, Rich, Rich>: Into<Vec<u8>>)));
+        }};
+    }
+    forb!("v1", TV1); forb!("v2", TV2); forb!("v3", TV3); forb!("v3lc", TV3Lc); forb!("v4", TV4); forb!("v4s", TV4S);
+    for (i, (n, v)) in rows.iter().enumerate() {
+        writeln!(w, "  (\"{}\", {}){}", n, b(*v), if i + 1 < rows.len() { "," } else { "" }).unwrap();
+    }
+    writeln!(w, "]").unwrap();
     writeln!(w, "end PM.Extracted.Impls").unwrap();
 }
